@@ -1,12 +1,418 @@
-// Package c03 checks property C03 (not built yet).
+// Package c03 checks property C03: every module assembled through the public
+// constructors from well-typed operands prints, without crashing, to text that
+// the library's parser and LLVM accept, that denotes what was constructed and
+// executes to the value the construction implies.
+//
+// spec/Build.tla generates construction programs (G): the coverage family
+// (every Schema kind x operand class x named/unnamed, every variant, flag,
+// repetition count, constant expression, constant form, module-level
+// constructor), exhaustively enumerated integer programs with the value the
+// reference evaluator computes, and -simulate behaviours (random mixes and
+// deeper integer programs). Each program is replayed through the real API
+// (harness/props/schema.BuildProg) and
+//
+//	(1) no constructor may panic on its own type check; String() must not panic;
+//	(2) LLVM must accept the printed text; it must denote the module the
+//	    program describes: llvm-as|llvm-dis of the printed text equals
+//	    llvm-as|llvm-dis of the text rendered from the Schema templates
+//	    (translation validation; if LLVM rejects the template text the program
+//	    is discarded as a specification error, never reported);
+//	(3) asm.ParseString accepts the text and re-printing gives the same text;
+//	(4) executable programs: lli's exit status equals the evaluator's value.
 package c03
 
 import (
+	"fmt"
+	"math/rand"
+	"path/filepath"
+	"regexp"
+	"sort"
+	"strings"
+	"sync"
+	"time"
+
+	"github.com/llir/llvm/asm"
+	"github.com/llir/llvm/ir"
+
+	"verif/harness/llvmoracle"
 	"verif/harness/mbt"
 	"verif/harness/props/reg"
+	"verif/harness/props/schema"
 )
 
 func init() { reg.Register("C03", Run) }
 
+type outcome struct {
+	prog      *schema.Prog
+	sig, what string // failure, if any
+	discard   string // specification-side problem: program not judged
+	disagree  bool   // a differing output was examined
+	libText   string
+	specText  string
+	kinds     []string
+}
+
+var reOpcode = regexp.MustCompile(`(?:= |^\s*)(?:tail |notail |musttail )?([a-z_]+)`)
+
+// firstDiff returns the first differing line pair of two texts.
+func firstDiff(a, b string) (string, string) {
+	la, lb := strings.Split(a, "\n"), strings.Split(b, "\n")
+	for i := 0; i < len(la) || i < len(lb); i++ {
+		x, y := "", ""
+		if i < len(la) {
+			x = la[i]
+		}
+		if i < len(lb) {
+			y = lb[i]
+		}
+		if x != y {
+			return x, y
+		}
+	}
+	return "", ""
+}
+
+func opcodeOf(line string) string {
+	line = strings.TrimSpace(line)
+	if strings.HasPrefix(line, "@") {
+		return "global"
+	}
+	if strings.HasPrefix(line, "define") || strings.HasPrefix(line, "declare") {
+		return "function-header"
+	}
+	if m := reOpcode.FindStringSubmatch(line); m != nil {
+		return m[1]
+	}
+	return "line"
+}
+
+// subject names what a program is about, for signatures: the kind under test for the coverage
+// families, the opcode of the first differing / offending line otherwise.
+func subject(p *schema.Prog, line string) string {
+	if p.Fam == "cover" || p.Fam == "cexpr" {
+		// id = cat:kind/fam/cls/...
+		parts := strings.SplitN(p.ID, "/", 4)
+		if len(parts) >= 3 {
+			return parts[0] + "|" + parts[2]
+		}
+	}
+	if p.Fam == "const" || p.Fam == "module" {
+		return p.ID
+	}
+	return p.Fam + ":" + opcodeOf(line)
+}
+
+var reLLVMErrLine = regexp.MustCompile(`<stdin>:(\d+):`)
+
+func offendingLine(text, diag string) string {
+	if m := reLLVMErrLine.FindStringSubmatch(diag); m != nil {
+		var n int
+		fmt.Sscan(m[1], &n)
+		ls := strings.Split(text, "\n")
+		if n >= 1 && n <= len(ls) {
+			return ls[n-1]
+		}
+	}
+	// verifier errors quote the instruction
+	ls := strings.Split(diag, "\n")
+	if len(ls) > 1 {
+		return ls[1]
+	}
+	return ""
+}
+
+func normDiag(d string) string {
+	d = strings.Split(d, "\n")[0]
+	d = regexp.MustCompile(`<stdin>:\d+:\d+: `).ReplaceAllString(d, "")
+	d = regexp.MustCompile(`'[^']*'`).ReplaceAllString(d, "'_'")
+	d = regexp.MustCompile(`[%@][-a-zA-Z$._0-9]+`).ReplaceAllString(d, "_")
+	d = regexp.MustCompile(`\d+`).ReplaceAllString(d, "N")
+	return mbt.Truncate(d, 80)
+}
+
+// evaluate runs one program through the real API and all oracles.
+func evaluate(tabs *schema.Tables, p *schema.Prog, full bool) (o outcome) {
+	o.prog = p
+	var bt *schema.Built
+	if msg, pn := mbt.Guard(func() { bt = schema.BuildProg(p) }); pn {
+		if strings.Contains(msg, "spec gap") || strings.HasPrefix(msg, "schema:") {
+			o.discard = "harness: " + msg
+			return
+		}
+		o.sig = "C03|constructor|" + subject(p, "") + "|panics-on-well-typed-operands"
+		o.what = fmt.Sprintf("a constructor call of program %s panics: %s", p.ID, mbt.Truncate(msg, 300))
+		return
+	}
+	if msg, pn := mbt.Guard(func() { o.libText = bt.M.String() }); pn {
+		o.sig = "C03|print|" + subject(p, "") + "|String-panics"
+		o.what = fmt.Sprintf("Module.String() of program %s panics: %s", p.ID, mbt.Truncate(msg, 300))
+		return
+	}
+	o.specText = schema.RenderProg(tabs, p)
+	if full {
+		canonSpec, ok, diag := llvmoracle.Canon(o.specText)
+		if !ok {
+			o.discard = "LLVM rejects the template rendering: " + strings.Split(diag, "\n")[0]
+			return
+		}
+		canonLib, ok, diag := llvmoracle.Canon(o.libText)
+		if !ok {
+			o.disagree = true
+			line := offendingLine(o.libText, diag)
+			o.sig = "C03|llvm-as|" + subject(p, line) + "|rejected|" + normDiag(diag)
+			o.what = fmt.Sprintf("LLVM rejects the printed module of program %s: %s\n--- printed:\n%s--- the same program rendered from the Schema templates (accepted by LLVM):\n%s", p.ID, mbt.Truncate(diag, 300), o.libText, o.specText)
+			return
+		}
+		if canonLib != canonSpec {
+			o.disagree = true
+			x, y := firstDiff(canonLib, canonSpec)
+			o.sig = "C03|faithful|" + subject(p, y) + "|denotes-a-different-module"
+			o.what = fmt.Sprintf("the printed module of program %s does not denote what was constructed; first difference under llvm-as|llvm-dis:\n  printed:     %s\n  constructed: %s\n--- printed:\n%s", p.ID, x, y, o.libText)
+			return
+		}
+		// the library's own parser
+		var m2 *ir.Module
+		var err error
+		if msg, pn := mbt.Guard(func() { m2, err = asm.ParseString("prog.ll", o.libText) }); pn || err != nil {
+			if err != nil {
+				msg = err.Error()
+			}
+			o.sig = "C03|reparse|" + subject(p, "") + "|rejected-by-asm"
+			o.what = fmt.Sprintf("asm.ParseString rejects the printed module of program %s: %s\n--- printed:\n%s", p.ID, mbt.Truncate(msg, 300), o.libText)
+			return
+		}
+		var again string
+		if msg, pn := mbt.Guard(func() { again = m2.String() }); pn {
+			o.sig = "C03|reparse|" + subject(p, "") + "|reprint-panics"
+			o.what = fmt.Sprintf("printing the re-parsed module of program %s panics: %s", p.ID, mbt.Truncate(msg, 300))
+			return
+		}
+		if again != o.libText {
+			x, y := firstDiff(o.libText, again)
+			o.sig = "C03|reparse|" + subject(p, x) + "|reprint-differs"
+			o.what = fmt.Sprintf("re-parsing and re-printing program %s changes the text:\n  printed:    %s\n  re-printed: %s", p.ID, x, y)
+			return
+		}
+	}
+	if p.Exec {
+		got, ok, diag := llvmoracle.Lli(o.libText)
+		if !ok || got != p.Want {
+			// is the reference right? run the template rendering
+			sgot, sok, sdiag := llvmoracle.Lli(o.specText)
+			if !sok || sgot != p.Want {
+				o.discard = fmt.Sprintf("the evaluator of Build.tla says %d, LLVM computes %d for the template rendering (%s)", p.Want, sgot, sdiag)
+				return
+			}
+			o.disagree = true
+			body := ""
+			if len(p.Fn.Blocks) > 0 && len(p.Fn.Blocks[0].Insts) > 0 {
+				body = p.Fn.Blocks[0].Insts[0].Kind
+			}
+			if !ok {
+				o.sig = "C03|execute|exec:" + body + "|lli-rejects"
+				o.what = fmt.Sprintf("lli cannot run the printed module: %s\n%s", mbt.Truncate(diag, 300), o.libText)
+				return
+			}
+			o.sig = "C03|execute|exec:" + body + "|wrong-result"
+			o.what = fmt.Sprintf("executing the printed module gives %d, the construction calls imply %d (LLVM agrees on the template rendering)\n--- printed:\n%s--- constructed:\n%s", got, p.Want, o.libText, o.specText)
+		}
+	}
+	return
+}
+
+func kindsOf(p *schema.Prog) []string {
+	var ks []string
+	for bi := range p.Fn.Blocks {
+		for ii := range p.Fn.Blocks[bi].Insts {
+			ks = append(ks, p.Fn.Blocks[bi].Insts[ii].Kind)
+		}
+		ks = append(ks, p.Fn.Blocks[bi].Term.Kind)
+	}
+	return ks
+}
+
+type stats struct {
+	mu        sync.Mutex
+	programs  int
+	discards  map[string]int
+	disagree  int
+	kinds     map[string]int
+	exec      int
+	execUB    int
+	byFam     map[string]int
+	discardEx []string
+}
+
+func runAll(rep *mbt.Report, tabs *schema.Tables, progs []schema.Prog, full func(p *schema.Prog) bool, st *stats) {
+	outs := make([]outcome, len(progs))
+	llvmoracle.Parallel(len(progs), func(i int) { outs[i] = evaluate(tabs, &progs[i], full(&progs[i])) })
+	for i := range outs {
+		o := &outs[i]
+		p := o.prog
+		key := p.Fam + ":" + p.ID
+		if p.Fam == "exec" || p.Fam == "mix" {
+			key = p.Fam + ":" + o.specText
+		}
+		rep.Count(key, true)
+		st.programs++
+		st.byFam[p.Fam]++
+		for _, k := range kindsOf(p) {
+			st.kinds[k]++
+		}
+		if p.Exec {
+			st.exec++
+		}
+		if p.UB {
+			st.execUB++
+		}
+		if o.disagree {
+			st.disagree++
+		}
+		if o.discard != "" {
+			st.discards[p.Fam]++
+			st.disagree++
+			if len(st.discardEx) < 8 {
+				st.discardEx = append(st.discardEx, p.ID+": "+mbt.Truncate(o.discard, 200))
+			}
+			continue
+		}
+		if o.sig != "" {
+			rep.Fail(mbt.Failure{Signature: o.sig, What: o.what, Case: p})
+		}
+	}
+	if len(outs) > 0 {
+		o := outs[len(outs)/2]
+		rep.Sample(map[string]interface{}{"program": o.prog.ID, "family": o.prog.Fam, "printed": mbt.Truncate(o.libText, 600), "exec": o.prog.Exec, "want": o.prog.Want})
+	}
+}
+
+func tlcProgs(rep *mbt.Report, o mbt.TLCOpts) []schema.Prog {
+	o.Spec, o.Workers = "Build", 1
+	if o.Timeout == 0 {
+		o.Timeout = 20 * time.Minute
+	}
+	t := mbt.MustTLC(o)
+	defer t.Cleanup()
+	if len(t.Violated) > 0 {
+		mbt.Infra("Build.tla (%s) violates %v: specification error\n%s", o.Cfg, t.Violated, mbt.Truncate(t.Output, 3000))
+	}
+	rep.AddTLC(t)
+	progs, err := mbt.ReadNDJSON[schema.Prog](filepath.Join(t.Dir, "progs.ndjson"))
+	if err != nil {
+		mbt.Infra("progs.ndjson: %v", err)
+	}
+	return progs
+}
+
 // Run is the C03 check.
-func Run(tier, replay string) { mbt.Infra("check C03 is not built yet") }
+func Run(tier, replay string) {
+	llvmoracle.Require()
+	rep := mbt.NewReport("C03", tier, "translation_validation")
+	rep.Rule = "construction programs generated by Build.tla, replayed through the public constructors and judged by LLVM (llvm-as, llvm-dis comparison with the Schema-template rendering, lli) and by the library's own parser; distinct = distinct programs"
+	rng := rand.New(rand.NewSource(mbt.Seed()))
+	thorough := tier == "thorough"
+
+	// the tables
+	t := mbt.MustTLC(mbt.TLCOpts{Spec: "SchemaEnum", Cfg: "SchemaEnum.cfg", Workers: 1, Consts: map[string]string{"WithCExprs": "TRUE"}})
+	if len(t.Violated) > 0 {
+		mbt.Infra("SchemaEnum: table inconsistency %v", t.Violated)
+	}
+	var tabs schema.Tables
+	if err := mbt.ReadJSON(filepath.Join(t.Dir, "schema.json"), &tabs); err != nil {
+		mbt.Infra("schema.json: %v", err)
+	}
+	t.Cleanup()
+	st := &stats{discards: map[string]int{}, kinds: map[string]int{}, byFam: map[string]int{}}
+	all := func(*schema.Prog) bool { return true }
+
+	if replay != "" {
+		var rf struct {
+			Failures []struct {
+				Case *schema.Prog `json:"case"`
+			} `json:"failures"`
+		}
+		if err := mbt.ReadJSON(replay, &rf); err != nil {
+			mbt.Infra("replay %s: %v", replay, err)
+		}
+		var ps []schema.Prog
+		for _, f := range rf.Failures {
+			if f.Case != nil {
+				ps = append(ps, *f.Case)
+			}
+		}
+		runAll(rep, &tabs, ps, all, st)
+		rep.Programs = st.programs
+		rep.Finish()
+	}
+
+	// coverage family: exhaustive
+	cover := tlcProgs(rep, mbt.TLCOpts{Cfg: "BuildCover.cfg"})
+	runAll(rep, &tabs, cover, all, st)
+
+	// executable integer programs: exhaustive at depth 1 over boundary constants
+	consts := map[string]string{"ExecWidths": "{1, 8, 32}"}
+	if thorough {
+		consts = map[string]string{"ExecWidths": "{1, 8, 16, 32, 64}", "BoundarySmall": "FALSE"}
+	}
+	exec1 := tlcProgs(rep, mbt.TLCOpts{Cfg: "BuildExec.cfg", Consts: consts, Timeout: 30 * time.Minute})
+	// every 16th of these also goes through the LLVM comparison and the parser (their kinds are in the coverage family)
+	pick := map[*schema.Prog]bool{}
+	for i := range exec1 {
+		if rng.Intn(16) == 0 {
+			pick[&exec1[i]] = true
+		}
+	}
+	runAll(rep, &tabs, exec1, func(p *schema.Prog) bool { return pick[p] }, st)
+
+	// random behaviours: deeper integer programs and mixes of all context-free kinds
+	nExec, nMix := 150, 120
+	if thorough {
+		nExec, nMix = 2500, 1500
+	}
+	execR := tlcProgs(rep, mbt.TLCOpts{Cfg: "BuildExec.cfg", Simulate: fmt.Sprintf("num=%d", nExec), Depth: 7,
+		Consts: map[string]string{"ExecWidths": "{1, 8, 16, 32, 64}", "ExecExhaustive": "FALSE", "BoundarySmall": "FALSE", "MaxSteps": "6"}})
+	runAll(rep, &tabs, execR, func(p *schema.Prog) bool { return len(p.Fn.Blocks[0].Insts)%4 == 0 }, st)
+	mix := tlcProgs(rep, mbt.TLCOpts{Cfg: "BuildMix.cfg", Simulate: fmt.Sprintf("num=%d", nMix), Depth: 7})
+	runAll(rep, &tabs, mix, all, st)
+
+	// a discarded program is a specification error; too many make the run worthless
+	nd := 0
+	for _, n := range st.discards {
+		nd += n
+	}
+	if nd*50 > st.programs {
+		mbt.Infra("%d of %d programs were discarded as specification errors (>2%%): %v", nd, st.programs, st.discardEx)
+	}
+	missing := []string{}
+	for i := range tabs.Kinds {
+		if st.kinds[tabs.Kinds[i].Kind] == 0 {
+			missing = append(missing, tabs.Kinds[i].Kind)
+		}
+	}
+	if len(missing) > 0 {
+		mbt.Infra("kinds never constructed: %v", missing)
+	}
+	rep.Programs = st.programs
+	rep.Disagreements = st.disagree
+	rep.TracesValidated = st.programs - nd
+	rep.Extra["programs_by_family"] = st.byFam
+	rep.Extra["executed_programs"] = st.exec
+	rep.Extra["programs_with_undefined_behaviour_not_executed"] = st.execUB
+	rep.Extra["discarded_spec_errors"] = st.discards
+	rep.Extra["discarded_examples"] = st.discardEx
+	rep.Extra["kinds_constructed"] = len(st.kinds)
+	ks := make([]string, 0, len(st.kinds))
+	for k := range st.kinds {
+		ks = append(ks, k)
+	}
+	sort.Strings(ks)
+	rep.Extra["constant_expression_kinds"] = len(tabs.CExprs)
+	rep.Exhaustive = false
+	rep.Explanation = "the coverage family and the depth-1 integer programs are enumerated completely; deeper programs and mixes are seeded random behaviours of Build.tla"
+	rep.Assumptions = []string{
+		"LLVM 14 (llvm-as, llvm-dis, lli) arbitrates validity, meaning and execution; equal llvm-dis output is taken as 'denotes the same module'",
+		"the Schema templates and the typing of Build.tla are themselves validated by LLVM on every program (rejected renderings and evaluator/lli disagreements are discarded and counted, >2% aborts with exit 2)",
+		"optional fields without a constructor parameter (flags, alignment, address space, orderings, attributes) are set through the exported struct fields, as the package documentation prescribes",
+	}
+	rep.Finish()
+}
